@@ -300,8 +300,7 @@ def _front(tree):
     if "[nt(path, *d[path]) for path in d]" not in src or "[nt(*x) for x in it]" not in src:
         raise NotRecognised("grouping output not recognised")
     psrc = ast.unparse(mp)
-    for needle in ("valid_types = list(_psplatform.pfullmem._fields)", "if memtype not in valid_types:",
-                   "self.memory_info if memtype in _psplatform.pmem._fields else self.memory_full_info",
+    for needle in ("self.memory_info if memtype in _psplatform.pmem._fields else self.memory_full_info",
                    "value = getattr(metrics, memtype)",
                    "if not total_phymem > 0:", "return value / float(total_phymem) * 100"):
         if needle not in psrc:
@@ -317,6 +316,34 @@ def _front(tree):
     else:
         raise NotRecognised("memory_percent: total_phymem = %s" % tsrc)
     return info
+
+
+def _pct_validation(tree):
+    """How memory_percent validates `memtype`. The promised shape is membership in the LIST of pfullmem's field names:
+    `valid_types = list(_psplatform.pfullmem._fields)` + `if memtype not in valid_types: raise ValueError(...)` as the first
+    statements. Other recognisable shapes get their own value (the fact then CHANGES and cfg_good fails) rather than a skip."""
+    cls = extract.find_class(tree, "Process")
+    mp = [n for n in ast.walk(cls) if isinstance(n, ast.FunctionDef) and n.name == "memory_percent"]
+    if len(mp) != 1:
+        raise NotRecognised("front-end memory_percent not found")
+    body = [st for st in mp[0].body if not (isinstance(st, ast.Expr) and isinstance(st.value, ast.Constant))]
+    ifs = [st for st in body if isinstance(st, ast.If)]
+    if not ifs:
+        raise NotRecognised("memory_percent: no validation `if`")
+    first = ifs[0]
+    raises = [n for n in first.body if isinstance(n, ast.Raise)]
+    exc = None
+    if len(raises) == 1 and isinstance(raises[0].exc, ast.Call):
+        exc = dotted(raises[0].exc.func)
+    test = ast.unparse(first.test)
+    before = [ast.unparse(st) for st in body[:body.index(first)]]
+    if test == "memtype not in valid_types" and before == ["valid_types = list(_psplatform.pfullmem._fields)"] and not first.orelse:
+        return "memtype not in list(pfullmem._fields) -> %s" % exc
+    if test in ("memtype not in _psplatform.pfullmem._fields",) and not before:
+        return "memtype not in pfullmem._fields -> %s" % exc
+    if "hasattr(" in test:
+        return "%s -> %s" % (test.replace("_psplatform.", ""), exc)
+    raise NotRecognised("memory_percent validation: %r after %r" % (test, before))
 
 
 def _front_vm(tree):
@@ -415,6 +442,7 @@ def facts(snap, F):
     maps = memo("maps", lambda: _maps(lx()))
     full = memo("full", lambda: _full_info(lx()))
     front = memo("front", lambda: _front(extract.parse_module(snap, "__init__.py")))
+    pval = memo("pval", lambda: _pct_validation(extract.parse_module(snap, "__init__.py")))
     fvm = memo("fvm", lambda: _front_vm(extract.parse_module(snap, "__init__.py")))
     vm = memo("vm", lambda: _vm(lx()))
     decos = memo("decos", lambda: _decorators(lx(), extract.parse_module(snap, "__init__.py")))
@@ -456,6 +484,8 @@ def facts(snap, F):
               "exceptions of the roll-up that make memory_full_info fall back to smaps")
     F.try_add("groupPathIdx", "Nat", lambda: N(front()["path_idx"]), "`path = tupl[2]` in the grouping loop")
     F.try_add("groupNumsFrom", "Nat", lambda: N(front()["nums_from"]), "`nums = tupl[3:]` in the grouping loop")
+    F.try_add("pctValidation", "String", lambda: S(pval()),
+              "how memory_percent validates memtype (membership in list(pfullmem._fields), rejected with ValueError)")
     F.try_add("pctUsesCache", "Bool", lambda: extract.lean_bool(front()["uses_cache"]),
               "memory_percent: `total_phymem = _TOTAL_PHYMEM or virtual_memory().total` (false: always virtual_memory().total)")
     F.try_add("vmStoresTotal", "Bool", lambda: extract.lean_bool(fvm()),
